@@ -243,6 +243,11 @@ def extract_position_tables():
                     if (isinstance(node, ast.Assign) and isinstance(node.value, ast.Call) and isinstance(node.value.func, ast.Name)
                             and node.value.func.id == "_changing_in_place" and len(node.targets) == 1 and isinstance(node.targets[0], ast.Name)):
                         mutators.append((cls.name, node.targets[0].id, clears and ast.literal_eval(node.value.args[0]) == node.targets[0].id))
+            if fn.name == "__array_function__":
+                # NumPy functions writing into the array (first argument of np.copyto / np.place / np.putmask, dst=, out=)
+                src = ast.unparse(fn)
+                mutators.append((cls.name, fn.name, "super().__array_function__(func, types, args, kwargs)" in src and "'out'" in src and "'dst'" in src
+                                 and "np.copyto" in src and "np.place" in src and "np.putmask" in src and "array._clear_dependent_caches()" in src))
             if fn.name == "__array_wrap__":
                 # NumPy calls it on the out= array of a ufunc: it must drop the caches when the array wrapped is the array itself
                 src = ast.unparse(fn)
